@@ -1000,31 +1000,45 @@ func checkFindHTTPCfg(r *vp.Recorder, key, cfg string, mhs []multihash.Multihash
 		return
 	}
 	ctx := context.Background()
-	for mi, mh := range append(mhs, unknown) {
-		var resp *model.FindResponse
-		var err error
-		if pn, m := vp.Guard(func() { resp, err = cl.Find(ctx, mh) }); pn {
-			r.Violation("find-http:panic", key, firstLine(m), nil)
-			continue
-		}
-		if err != nil {
-			r.Violation("find-http:error", key, err.Error(), nil)
-			continue
-		}
-		got, _ := resultSet(resp, mh)
-		var want []string
-		switch mi {
-		case 0:
-			for _, rec := range recs {
-				want = append(want, fmt.Sprintf("%s|%x|%x", rec.prov.ID, rec.ctx, rec.md))
+	for round := 0; round < 2; round++ {
+		if round == 1 {
+			// the client's accessor for its provider cache is read-only: the
+			// same lookups once more after it was called
+			if pn, m := vp.Guard(func() { _ = cl.PCache() }); pn {
+				r.Violation("find-http:panic", key, "PCache: "+firstLine(m), nil)
+				return
 			}
-		case 1:
-			want = []string{fmt.Sprintf("%s|%x|%x", recs[1].prov.ID, recs[1].ctx, recs[1].md)}
 		}
-		sort.Strings(want)
-		if strings.Join(got, ",") != strings.Join(want, ",") {
-			r.Violation("find-http:wrong-results", key, fmt.Sprintf("Find(mh%d) over HTTP = %v, indexed %v", mi, got, want), nil)
+		for mi, mh := range append(mhs, unknown) {
+			var resp *model.FindResponse
+			var err error
+			if pn, m := vp.Guard(func() { resp, err = cl.Find(ctx, mh) }); pn {
+				r.Violation("find-http:panic", key, firstLine(m), nil)
+				continue
+			}
+			if err != nil {
+				r.Violation("find-http:error", key, err.Error(), nil)
+				continue
+			}
+			got, _ := resultSet(resp, mh)
+			var want []string
+			switch mi {
+			case 0:
+				for _, rec := range recs {
+					want = append(want, fmt.Sprintf("%s|%x|%x", rec.prov.ID, rec.ctx, rec.md))
+				}
+			case 1:
+				want = []string{fmt.Sprintf("%s|%x|%x", recs[1].prov.ID, recs[1].ctx, recs[1].md)}
+			}
+			sort.Strings(want)
+			if strings.Join(got, ",") != strings.Join(want, ",") {
+				when := ""
+				if round == 1 {
+					when = " (after the client's PCache accessor was called)"
+				}
+				r.Violation("find-http:wrong-results", key, fmt.Sprintf("Find(mh%d) over HTTP%s = %v, indexed %v", mi, when, got, want), nil)
+			}
+			r.Outcome(fmt.Sprintf("find-http-%d", len(got)))
 		}
-		r.Outcome(fmt.Sprintf("find-http-%d", len(got)))
 	}
 }
